@@ -31,6 +31,7 @@ type session struct {
 	onLine func(string)
 	regs   []string
 	from   []int // link the line of the same index arrived on
+	greet  []string // lines the server sends the moment it accepts the connection, before it has read anything
 }
 
 func startSession(e *Env, o ClientOpts, plan func(l *simnet.Link)) *session {
@@ -43,6 +44,11 @@ func startSession(e *Env, o ClientOpts, plan func(l *simnet.Link)) *session {
 	e.OnDial = func(l *simnet.Link) {
 		s.l = l
 		e.S.Spawn(fmt.Sprintf("server%d", l.ID), func() {
+			// servers speak first (NOTICE AUTH, a PING cookie): these lines can be
+			// in the client's hands before Connect has finished starting up
+			for _, ln := range s.greet {
+				l.Send(ln + "\r\n")
+			}
 			reg, ok := Registration(l, time.Hour)
 			s.regs = reg
 			for _, ln := range reg {
